@@ -744,6 +744,35 @@ def rule_round5(repo, rep):
                         if isinstance(t, ast.Attribute) and isinstance(t.value, ast.Name) and t.value.id in alias and st.lineno > alias[t.value.id][1]:
                             rep.bad("C11-i", f"ethosu/vela/{m.name}.py:{q}", f"`{str(norm(st))[:70]}` edits a cloned quantisation record",
                                     f"`{t.value.id}` is `{alias[t.value.id][0]}` itself, not a clone: the edit changes the quantisation of that tensor, which may be a subgraph output or an operand of a CPU operator")
+    # ... and never store *into* the value / zero-point arrays of a tensor they did not create: constants may be shared by several
+    # operators (one paddings tensor for two PADs, one weight tensor for two convolutions), one of which may stay on the CPU
+    n_st = 0
+    for mname in ("tflite_graph_optimiser", "graph_optimiser_util", "softmax", "lstm", "operation_util", "lut"):
+        m = repo.mod(mname)
+        for q, fn in m.functions.items():
+            fresh = set()
+            for st in walk_no_nested(fn):
+                if isinstance(st, ast.Assign) and len(st.targets) == 1 and isinstance(st.targets[0], ast.Name) and isinstance(st.value, ast.Call) and \
+                        (call_name(st.value) or "").split(".")[-1] in ("create_const_tensor", "clone", "Tensor", "clone_into_shram", "zeros", "ones", "full", "array", "copy", "zeros_like"):
+                    fresh.add(st.targets[0].id)
+            for st in walk_no_nested(fn):
+                tg = None
+                if isinstance(st, ast.Assign) and len(st.targets) == 1 and isinstance(st.targets[0], ast.Subscript):
+                    tg = st.targets[0].value
+                elif isinstance(st, ast.AugAssign):
+                    tg = st.target.value if isinstance(st.target, ast.Subscript) else st.target
+                if tg is None:
+                    continue
+                txt = str(norm(tg))
+                if not (txt.endswith(".values") or txt.endswith(".zero_point") or txt.endswith(".scale_f32")):
+                    continue
+                root = txt.split(".")[0]
+                n_st += 1
+                rep.check(root in fresh, "C11-i", f"ethosu/vela/{mname}.py:{q}", f"`{str(norm(st))[:70]}` writes into an array this function created",
+                          f"`{txt}` belongs to a tensor the rewrite did not create: the array is shared with every other operator that uses the same constant (and with its source tensor), so an operator "
+                          "that stays on the CPU is written back with the modified data")
+    if n_st < 2:
+        raise AnalysisError(f"in-place array stores in rewrites: only {n_st} found")
     if n_al < 5:
         raise AnalysisError(f"quantisation aliases: only {n_al} found")
     rep.check(True, "C11-i", "ethosu/vela", f"{n_al} local aliases of quantisation records are read only", "")
